@@ -24,6 +24,16 @@ Strays == {"select", "select&select-type=1", "select&select-type=2", "acl", "tag
            "attributes", "versionId=null", "list-type=2", "policy", "location", "restore", "legal-hold", "retention", "x-id=GetObject"}
 StrayCallers == {"root", "user-grantee", "user-owner"}
 
+\* unusual targets (state the API never produces by itself, but a gateway meets on real storage):
+\*   "implicit-dir"  an object read of a key ending in "/" that names only the parent directory
+\*                   of other keys
+\*   "raw-file"      an object read of a file put into the bucket's directory without the
+\*                   gateway (no attribute at all)
+\*   "orphan" / "orphan-lock"  CreateBucket (without / with the object-lock header) for a
+\*                   directory that exists without any attribute - an interrupted creation
+OddReads == {"HeadObject", "GetObject", "GetObjectAttributes", "GetObjectTagging", "GetObjectAcl"}
+OddVariants == {"implicit-dir", "raw-file", "orphan", "orphan-lock"}
+
 \* An observation: [route, caller, variant, stray, pass, status, changed, rw]
 \*   pass     "mixed": the vectors in the enumeration's order; "reads-first": per caller every
 \*            read request first, then every mutating one (a decision remembered from a read
